@@ -156,7 +156,7 @@ func flattenPhi(v ssa.Value, l *Loop, depth int) []ssa.Value {
 }
 
 func isConst(v ssa.Value) bool { _, ok := v.(*ssa.Const); return ok }
-func isOne(v ssa.Value) bool  { k, ok := core.ConstInt(v); return ok && k == 1 }
+func isOne(v ssa.Value) bool   { k, ok := core.ConstInt(v); return ok && k == 1 }
 func isIntegral(t types.Type) bool {
 	b, ok := t.Underlying().(*types.Basic)
 	return ok && b.Info()&types.IsInteger != 0
